@@ -354,6 +354,7 @@ def run_impl(case):
     except Exception as e:  # noqa: BLE001
         out["bad_method"] = type(e).__name__
     out["finite"] = bool(np.isfinite(S).all() and np.isfinite(E).all())
+    out["data_unchanged"] = bool(np.array_equal(np.asarray(fd.values), X, equal_nan=True))
     # --- same global seed again: identical results
     est2, _, _, calls2, _, _ = _fit_once(case, False, False)
     S2, E2 = np.asarray(est2.transform(fd, method="FCPTPA")), np.asarray(est2.eigenfunctions.values)
@@ -434,6 +435,14 @@ def model_lines(case, impl):
     K = impl["Kf"]
     if K == 0:
         return lines
+    try:
+        return lines + _fit_model_lines(case, impl, K)
+    except ValueError:
+        return lines  # non-finite implementation output where the replayed vectors are finite: compare() reports it
+
+
+def _fit_model_lines(case, impl, K):
+    lines = []
     n, m1, m2 = case["n"], case["m1"], case["m2"]
     X = ";".join(",".join(r) for r in case["X"])
     lines.append(
@@ -592,6 +601,8 @@ def oracle(case, impl):
         bad("terminates", f"{impl['total_calls']} updates for {case['K']} components > K(2*{mx}+1)")
     if not impl["repro"]:
         bad("reproducible", "two fits under the same global seed differ")
+    if not impl.get("data_unchanged", True):
+        bad("input_unchanged", "fit changed the values of the data object it was given")
     if not impl["history_ok"]:
         bad("reproducible", "a fit on an estimator object that was fitted before (other data, other options) differs from a fresh fit under the same seed", causes=["stale_state"])
     if impl["bad_method"] != "ValueError":
@@ -617,6 +628,9 @@ def oracle(case, impl):
     csq = 0.0
     for k in range(K):
         Ek = E[k].reshape(m1, m2)
+        if not (np.isfinite(Ek).all() and np.isfinite(S[:, k]).all()):
+            bad("finite", f"component {k}: non-finite eigenimage / scores although the recorded vectors are finite")
+            return vs
         # unit norm and rank one
         fro = float((Ek ** 2).sum())
         if abs(fro - 1) > 1e-9:
